@@ -330,6 +330,9 @@ class _FastDomain(Domain):
     """The value is a plain str, the block is the 3-element html_quote form;
     `p` says whether the string contains a character the predicate tests."""
 
+    kind = 'str'     # 'object': a value that is neither text nor tainted
+                     # (no __untaint__); it becomes text by ustr()
+
     def __init__(self, model, fi, p, helper=None):
         self.model = model
         self.fi = fi
@@ -363,6 +366,9 @@ class _FastDomain(Domain):
                     else [e.args[1]])}
                 a = norm(e.args[0])
                 if names <= {'str', 'bytes', 'tuple'}:
+                    if self.kind == 'object' and st.env.get('@obj:' + a) \
+                            and not st.env.get('@text:' + a):
+                        return False        # looked up, not yet text
                     if names == {'bytes'}:
                         return False
                     return True
@@ -519,10 +525,29 @@ class _FastDomain(Domain):
                 ns.env.pop(stmt.targets[0].id, None)
             else:
                 ns.env[stmt.targets[0].id] = v
+            # conversion to text: t = ustr(t) / str(t) / untaintmethod()
+            val = stmt.value
+            if isinstance(val, ast.Call) and (
+                    norm(val.func).split('.')[-1] in ('ustr', 'str') or
+                    (isinstance(val.func, ast.Name) and
+                     'untaint' in val.func.id)):
+                ns.env['@text:' + stmt.targets[0].id] = True
+            elif isinstance(val, ast.Name) and ns.env.get(
+                    '@text:' + val.id):
+                ns.env['@text:' + stmt.targets[0].id] = True
+            else:
+                ns.env.pop('@text:' + stmt.targets[0].id, None)
+                # the looked-up value: NS[name] / name(NS)
+                tname = stmt.targets[0].id
+                if (isinstance(val, ast.Subscript) and isinstance(
+                        val.slice, ast.Name) and val.slice.id == tname) or (
+                        isinstance(val, ast.Call) and isinstance(
+                            val.func, ast.Name) and val.func.id == tname):
+                    ns.env['@obj:' + tname] = True
         return ns
 
 
-def _scenario_polarity(model, rb, helper, node):
+def _scenario_polarity(model, rb, helper, node, kind='str'):
     """Interpret one iteration of the block loop (or the body of the helper
     that renders one var block) for a str value in the 3-element form.
     -> {p: (paths, paths without the escaper, paths with it)}"""
@@ -533,6 +558,7 @@ def _scenario_polarity(model, rb, helper, node):
         body, start = loops[0].body, _FS()
         # flags initialised before the loop
         d0 = _FastDomain(model, fi, True, helper)
+        d0.kind = kind
         for st0 in rb.node.body:
             if st0 is loops[0]:
                 break
@@ -544,6 +570,7 @@ def _scenario_polarity(model, rb, helper, node):
     res = {}
     for p in (True, False):
         dom = _FastDomain(model, fi, p, helper)
+        dom.kind = kind
         it = Interp(dom)
         outs = it.block(body, start)
         ends = [o for o in outs if o.kind in ('normal', 'continue', 'return')
@@ -586,6 +613,20 @@ def rule_fast_path(model):
         r.finding(rb.where, 'skip flag polarity', 'strings with problem '
                   'characters skip quoting (test or flag inverted)',
                   node=node, ctx=rb, path=o.state.trace)
+    # the same for a value that is not text: it is converted with ustr()
+    # and then treated like any string (only a tainted value, which quotes
+    # itself, may skip the escaper)
+    reso = _scenario_polarity(model, rb, helper, node, kind='object')
+    n_to, unq_to, _ = reso[True]
+    r.instance(rb.where, 'scenario: non-text value whose text has a tested '
+               'character', f'{n_to} path(s), {len(unq_to)} without the '
+               'escaper')
+    for o in unq_to:
+        r.finding(rb.where, 'non-text value skips quoting', 'a value that '
+                  'is neither text nor tainted (an object with __str__, a '
+                  'list, an exception) is converted to text and inserted '
+                  'without the escaper although its text contains problem '
+                  'characters', node=node, ctx=rb, path=o.state.trace)
     # bytes are never skipped
     return r
 
